@@ -143,9 +143,15 @@ int main(int argc, char** argv) {
   Runner R("C04", argc, argv);
   const bool thorough = R.a.thorough();
   auto P = programs();
+  // quick: a fixed subset (one program per parallel mechanism); thorough: everything incl. scale L
+  static const char* QUICK[] = {"Sphere8 - Cube", "BatchBoolean+ of 5", "Hull(sphere verts)", "LevelSet(two spheres)",
+                                "SmoothOut+Refine(3)", "CalculateNormals+Curvature", "CrossSection booleans+Offset", "Triangulate(many holes)"};
   std::vector<int> sel;
-  for (int i = 0; i < (int)P.size(); ++i)
-    if (!P[i].large || thorough) sel.push_back(i);
+  for (int i = 0; i < (int)P.size(); ++i) {
+    bool q = false;
+    for (auto n : QUICK) q = q || P[i].name == n;
+    if (thorough || q) sel.push_back(i);
+  }
 
 #if MANIFOLD_PAR != 1
   // ---------------- serial build: write the reference hashes
@@ -178,7 +184,7 @@ int main(int argc, char** argv) {
       if (t != std::string::npos) ref[l.substr(0, t)] = l.substr(t + 1);
     }
   }
-  const std::vector<int> CONC = thorough ? std::vector<int>{1, 2, 4, 16} : std::vector<int>{2, 16};
+  const std::vector<int> CONC = thorough ? std::vector<int>{1, 2, 4, 16} : std::vector<int>{2};
   const int J = 16;  // the root's alternatives are partitioned over J cases
   const uint64_t nc = CONC.size();
   R.phase("schedules", (uint64_t)sel.size() * nc * J, 1, [&](uint64_t idx, Ctx& c) {
